@@ -23,7 +23,7 @@ SPEC = {
     "props_module": "C25",
     "model_vo": "theories/C25/Model.vo",
     "bin": "c25",
-    "n": {"quick": 20, "thorough": 120},
+    "n": {"quick": 20, "thorough": 80},
     "crash_is_violation": True,
     "engine_timeout": 2400,
     "extra_args": lambda ctx: ["--cli", ctx.c25_cli],
